@@ -4629,12 +4629,9 @@ impl<'a> Assignment<'a> {
                             "1" | "yes" | "true" | "enabled" | "on" => DataValue::Bool(true),
                             _ => DataValue::Bool(false),
                         },
-                        ArgType::Integer => DataValue::try_from(value).or_else(|_| {
-                            Err(StamError::QuerySyntaxError(
-                                format!("Expected integer in assignment, got '{}'", value),
-                                "",
-                            ))
-                        })?,
+                        //(DataValue::try_from(&str) is the string conversion: it never fails and
+                        // would store the number as text)
+                        ArgType::Integer => DataValue::Int(parse_int_value(value)?),
                         ArgType::Float => DataValue::try_from(value).or_else(|_| {
                             Err(StamError::QuerySyntaxError(
                                 format!("Expected integer in assignment, got '{}'", value),
